@@ -80,6 +80,10 @@ def generate(res, tier, wd, want, wrappers=("cvxpy",)):
     r = tlc("Pep", pep_cfg(3, 1, [1, 2, 5], wrappers, invs=False, plain=True, allowed=("lmi", "lmimetric", "metrics")), wd)
     res.add_tlc("Pep(export: LMI shapes x LMI-as-metric x one/two metrics)", r)
     progs += [dict(p, _must=1) for p in _progs_from(r["out"]) if p["prog"]["lmimetric"] == 1 and len(p["prog"]["lmis"]) == 1]
+    # (3d) every pair of LMI shapes on one model (two function-level LMIs, re-used buffers, ...), exhaustive
+    r = tlc("Pep", pep_cfg(2, 1, [1], wrappers, invs=False, plain=True, allowed=("lmi",)), wd)
+    res.add_tlc("Pep(export: pairs of LMI shapes)", r)
+    progs += [dict(p, _must=1) for p in _progs_from(r["out"]) if len(p["prog"]["lmis"]) == 2]
     n = 3000 if tier == "quick" else 30000
     r = tlc("Pep", pep_cfg(3, 3, classes_all, wrappers, invs=False), wd, workers=1, simulate="num=%d" % n,
             extra=["-depth", "7", "-seed", str(seed() + 3)])
